@@ -371,6 +371,8 @@ class Evaluator:
         s.assume_finite = True             # np.isfinite(x) folds to True (recorded by the rules as an assumption)
         s.raises: list = []                # pruned raise branches: guard, polarity, exception name, path condition
         s._pc: list = []
+        s.builds: list = []      # every array-build term created, in order of creation (dicts: name, term, mod, line)
+        s._build = None          # array-build mode: {'gens': [...], 'pc0': n, 'recs': {name: [...]}, 'ok': bool}
         s._undecided = 0                   # nesting depth of undecided guards (facts are learnt only at depth 0)
 
     def fresh(s):
@@ -585,9 +587,24 @@ class Evaluator:
         flat = [uniq[k] for k in sorted(uniq)]
         return flat[0] if len(flat) == 1 else Opq(kind, *flat)
 
+    def refold(s, g):
+        """fold a condition computed EARLIER again under the facts known NOW (a boolean kept in a local and tested after a guard raised)"""
+        if isinstance(g, Opq) and g.k:
+            if g.k[0] == 'cmp' and len(g.k) == 3 and isinstance(g.k[2], Poly) and g.k[1] in ('Gt', 'GtE', 'Eq', 'NotEq'):
+                return s.mkcmp(g.k[1], g.k[2])
+            if g.k[0] in ('and', 'or'):
+                return s.mkbool(g.k[0], [s.refold(x) for x in g.k[1:]])
+            if g.k[0] == 'not':
+                r = s.refold(g.k[1])
+                return s.negate(r) if r is not g.k[1] else g
+            for gg, pol in s.assumed:
+                if isinstance(gg, Opq) and same(gg, g): return pol
+        return g
+
     def truth(s, v):
         """truthiness of a term as guard"""
         if isinstance(v, bool): return v
+        if isinstance(v, Opq) and s.facts: return s.refold(v)
         if v is None: return False
         if isinstance(v, (list, tuple, dict, str)): return len(v) > 0
         if isinstance(v, Poly):
@@ -629,6 +646,8 @@ class Evaluator:
                 r = any(same(a, x) for x in b)
             elif isinstance(b, dict) and (isinstance(a, str) or (isinstance(a, Poly) and a.is_const())):
                 r = any(same(a, x) for x in b)
+            if r is None and isinstance(b, (list, tuple)) and 0 < len(b) <= 8 and all(_is_concrete(x) for x in b) and not isinstance(a, (list, tuple, dict)):
+                r = s.mkbool('or', [s.compare(ast.Eq(), a, x) for x in b])
             if r is None: r = Opq('in', a, b)
             return r if isinstance(op, ast.In) else s.negate(r)
         if isinstance(op, (ast.Is, ast.IsNot)):
@@ -920,7 +939,23 @@ class Evaluator:
         fv = s.ev(f, env, mod, depth)
         return s.apply(fv, args, kw, mod, depth, e)
 
-    def call_method(s, recv, attr, args, kw, mod, depth, node=None):
+    def _lift_args(s, args, kw, rebuild, budget=3):
+        """f(.., g ? a : b, ..) == g ? f(.., a, ..) : f(.., b, ..) for calls that are not interpreted further"""
+        if budget <= 0: return None
+        for i, a in enumerate(args):
+            if isinstance(a, Cond):
+                xs, ys = list(args), list(args); xs[i] = a.a; ys[i] = a.b
+                return s.mkcond(a.g, rebuild(xs, kw, budget - 1), rebuild(ys, kw, budget - 1))
+        for k, a in kw.items():
+            if isinstance(a, Cond):
+                kx, ky = dict(kw), dict(kw); kx[k] = a.a; ky[k] = a.b
+                return s.mkcond(a.g, rebuild(list(args), kx, budget - 1), rebuild(list(args), ky, budget - 1))
+        return None
+
+    def call_method(s, recv, attr, args, kw, mod, depth, node=None, _budget=3):
+        if any(isinstance(a, Cond) for a in list(args) + list(kw.values())) and isinstance(recv, Poly) and _budget > 0:
+            r = s._lift_args(list(args), kw, lambda xs, ks, b: s.call_method(recv, attr, xs, ks, mod, depth, node, b), _budget)
+            if r is not None: return r
         if isinstance(recv, Cond):
             return Cond(recv.g, s.call_method(recv.a, attr, args, kw, mod, depth, node), s.call_method(recv.b, attr, args, kw, mod, depth, node))
         if isinstance(recv, Ref) and recv.kind in ('module', 'ext', 'class'):
@@ -1038,9 +1073,14 @@ class Evaluator:
         if name in ('list', 'tuple') and len(args) == 1:
             if isinstance(a, (list, tuple)): return list(a) if name == 'list' else tuple(a)
             if isinstance(a, dict): return [k.v if isinstance(k, _HK) else k for k in a]
+            if isinstance(a, Comp) and a.kind == 'set': return Opq('list', a)
             if isinstance(a, Comp): return Comp(a.elt, a.gens, 'list')
             return Opq('list', a)
         if name == 'list' and not args: return []
+        if name == 'set' and not args: return Opq('set')
+        if name == 'set' and len(args) == 1 and isinstance(a, Comp) and a.kind in ('list', 'gen', 'set'): return Comp(a.elt, a.gens, 'set')
+        if name == 'sorted' and len(args) == 1 and not kw and isinstance(a, Opq) and a.k and a.k[0] == 'list' and len(a.k) == 2: return Opq('sorted', a.k[1])
+        if name in ('list', 'tuple') and len(args) == 1 and isinstance(a, Comp) and a.kind == 'set': return Opq('list', a)
         if name == 'dict' and not args and not kw: return {}
         if name == 'dict' and len(args) == 1 and isinstance(a, dict): return dict(a, **kw)
         if name == 'sum' and len(args) >= 1:
@@ -1114,6 +1154,25 @@ class Evaluator:
         if isinstance(a, Cond):
             return Cond(a.g, s.npcall(name, [a.a] + list(args[1:]), kw), s.npcall(name, [a.b] + list(args[1:]), kw))
         if name == 'isfinite': return True if s.assume_finite else Opq('isfinite', a)
+        # block assembly normal form: hcat(parts...) / vcat(parts...), nested same-kind joins flattened
+        if name in ('hstack', 'vstack', 'concatenate', 'block', 'column_stack', 'row_stack') and isinstance(a, (list, tuple)) and a:
+            axis = kw.get('axis', args[1] if len(args) > 1 else None)
+            axc = axis.real_const() if isinstance(axis, Poly) else axis
+            kind = None
+            if name in ('hstack', 'column_stack'): kind = 'hcat'
+            elif name in ('vstack', 'row_stack'): kind = 'vcat'
+            elif name == 'concatenate': kind = 'vcat' if axc in (None, 0) else ('hcat' if axc in (1, -1) else None)
+            elif name == 'block':
+                if all(isinstance(r, (list, tuple)) for r in a):
+                    rows = [s.npcall('hstack', [list(r)], {}) if len(r) > 1 else r[0] for r in a]
+                    return rows[0] if len(rows) == 1 else s.npcall('vstack', [rows], {})
+                kind = 'hcat'
+            if kind is not None:
+                parts = []
+                for x in a:
+                    if isinstance(x, Opq) and x.k and x.k[0] == kind: parts += list(x.k[1:])
+                    else: parts.append(x)
+                return parts[0] if len(parts) == 1 else Opq(kind, *parts)
         if name == 'ones': return Poly.const(1)
         if name in ('vectorize', 'array', 'float') and len(args) == 1:
             if isinstance(a, Opq) and a.k and a.k[0] == 'Σ': return a
@@ -1207,10 +1266,16 @@ class Evaluator:
             if isinstance(st, ast.Return):
                 return s.ev(st.value, env, mod, depth) if st.value is not None else None
             if isinstance(st, ast.Raise): return RAISE
+            if isinstance(st, ast.Continue): return FALL
+            if isinstance(st, ast.Break):
+                if s._build is not None: s._build['ok'] = False
+                return FALL
             if isinstance(st, (ast.Assign, ast.AnnAssign)):
                 if isinstance(st, ast.AnnAssign) and st.value is None: continue
                 val = s.ev(st.value, env, mod, depth)
                 for t in (st.targets if isinstance(st, ast.Assign) else [st.target]): s.assign(t, val, env, mod, depth)
+            elif isinstance(st, ast.AugAssign) and isinstance(st.target, ast.Subscript) and isinstance(st.op, (ast.Add, ast.Sub)) and s.array_store(st.target, s.ev(st.value, env, mod, depth) if isinstance(st.op, ast.Add) else s.negate_value(s.ev(st.value, env, mod, depth)), env, mod, depth, aug=True):
+                pass
             elif isinstance(st, ast.AugAssign):
                 cur = s.ev(_load(st.target), env, mod, depth)
                 s.assign(st.target, s.binop(st.op, cur, s.ev(st.value, env, mod, depth)), env, mod, depth)
@@ -1330,21 +1395,18 @@ class Evaluator:
         if isinstance(st, ast.For):
             it = s.ev(st.iter, env, mod, depth)
             tnames = [x.id for x in ast.walk(st.target) if isinstance(x, ast.Name)]
-            # accumulate idiom  out=[]; for x in it: [if c:] out.append(f(x))
+            # a loop over a concrete short sequence is executed element by element
+            if isinstance(it, (list, tuple)) and len(it) <= 24 and not st.orelse and not any(isinstance(n, (ast.Break, ast.Continue, ast.Return)) for n in ast.walk(st)):
+                for item in it:
+                    s.assign(st.target, item, env, mod, depth)
+                    s.block(st.body, env, mod, depth)
+                return
+            if s.accumulate(st, it, env, mod, depth): return
+            if s.array_build(st, it, env, mod, depth, assigned, tnames): return
             body = st.body
             filt = []
             while len(body) == 1 and isinstance(body[0], ast.If) and not body[0].orelse:
                 filt.append(body[0].test); body = body[0].body
-            if len(body) == 1 and isinstance(body[0], ast.Expr) and isinstance(body[0].value, ast.Call) and isinstance(body[0].value.func, ast.Attribute) \
-                    and body[0].value.func.attr == 'append' and isinstance(body[0].value.func.value, ast.Name):
-                nm = body[0].value.func.value.id
-                cur = s.lookup(nm, env, mod)
-                if isinstance(cur, list) and not cur:
-                    env2 = {'__parent__': env}
-                    s.bind_iter(st.target, it, env2, mod, depth, 0)
-                    fs = [s.truth(s.ev(c, env2, mod, depth)) for c in filt]
-                    s.rebind(nm, Comp(s.ev(body[0].value.args[0], env2, mod, depth), [(it, [f for f in fs if f is not True])], 'list'), env)
-                    return
             if len(body) == 1 and isinstance(body[0], ast.AugAssign) and isinstance(body[0].op, ast.Add) and isinstance(body[0].target, ast.Name):
                 nm = body[0].target.id
                 cur = s.lookup(nm, env, mod)
@@ -1367,6 +1429,198 @@ class Evaluator:
                 s.rebind(nm, Opq('loop', it, Opq('init', init[nm]), Opq('step', summary[nm])), env)
         else:
             for nm in assigned: s.rebind(nm, Opq('?', 'while-carried ' + nm), env)
+
+    # ---- accumulate loops  ==  comprehensions
+    def _acc_target(s, e, env, mod, depth):
+        """(kind of place, key, current value) of an accumulator expression: a local name or an attribute of an atom (self.x)"""
+        if isinstance(e, ast.Name):
+            try: return ('name', e.id, s.lookup(e.id, env, mod))
+            except Exception: return None
+        if isinstance(e, ast.Attribute):
+            base = s.ev(e.value, env, mod, depth)
+            if isinstance(base, Poly) and base.as_atom() is not None:
+                return ('store', (base.as_atom(), e.attr), s.stores.get((base.as_atom(), e.attr)))
+            if isinstance(base, Rec): return ('rec', (base, e.attr), base.f.get(e.attr))
+        return None
+
+    @staticmethod
+    def _empty_acc(v):
+        if isinstance(v, list) and not v: return 'list'
+        if isinstance(v, dict) and not v: return 'dict'
+        if isinstance(v, Opq) and v.k and v.k[0] == 'set' and len(v.k) == 1: return 'set'
+        return None
+
+    def accumulate(s, st, it, env, mod, depth):
+        """out = [] / set() / {}; for x in it: [tmp = ..] [if c: continue] [if c:] out.append(e) / out.add(e) / out[k] = v   (loops may nest)
+        is the comprehension  [e for x in it if c]  -- recognised so that either spelling has the same normal form"""
+        records = {}            # accumulator key -> (place, kind, elt)
+        gens = []               # [(iter value, [filters])]
+        ok = [True]
+
+        def walk(stmts, env2, level):
+            for stx in stmts:
+                if not ok[0]: return
+                if isinstance(stx, ast.Pass) or (isinstance(stx, ast.Expr) and isinstance(stx.value, ast.Constant)): continue
+                if isinstance(stx, (ast.Assign, ast.AnnAssign)) and not isinstance(stx, ast.AugAssign):
+                    tg = stx.targets[0] if isinstance(stx, ast.Assign) else stx.target
+                    if isinstance(tg, ast.Subscript):
+                        place = s._acc_target(tg.value, env, mod, depth)
+                        if place is None or s._empty_acc(place[2]) != 'dict' or (place[0], _pk(place[1])) in records: ok[0] = False; return
+                        k = s.ev(tg.slice, env2, mod, depth); v = s.ev(stx.value, env2, mod, depth)
+                        records[(place[0], _pk(place[1]))] = (place, 'dict', (k, v)); continue
+                    if isinstance(tg, (ast.Name, ast.Tuple)) and stx.value is not None:
+                        names = [x.id for x in ast.walk(tg) if isinstance(x, ast.Name)]
+                        if any(s._empty_acc(s.lookup(nm_, env, mod)) for nm_ in names if nm_ in _chain_names(env)): ok[0] = False; return
+                        s.assign(tg, s.ev(stx.value, env2, mod, depth), env2, mod, depth); continue
+                    ok[0] = False; return
+                if isinstance(stx, ast.If):
+                    g = s.truth(s.ev(stx.test, env2, mod, depth))
+                    if not stx.orelse and len(stx.body) == 1 and isinstance(stx.body[0], ast.Continue):
+                        gens[level][1].append(s.negate(g)); continue
+                    if not stx.orelse:
+                        before = len(gens[level][1])
+                        gens[level][1].append(g)
+                        n_before = len(records)
+                        walk(stx.body, {'__parent__': env2}, level)
+                        if not ok[0]: return
+                        if len(records) == n_before: ok[0] = False; return      # a conditional block without effect on an accumulator: not this idiom
+                        # statements after the if would run unconditionally: only allowed when nothing follows
+                        if stx is not stmts[-1]: ok[0] = False; return
+                        continue
+                    ok[0] = False; return
+                if isinstance(stx, ast.Expr) and isinstance(stx.value, ast.Call) and isinstance(stx.value.func, ast.Attribute) and stx.value.func.attr in ('append', 'add') and len(stx.value.args) == 1:
+                    place = s._acc_target(stx.value.func.value, env, mod, depth)
+                    kind = {'append': 'list', 'add': 'set'}[stx.value.func.attr]
+                    if place is None or s._empty_acc(place[2]) != kind or (place[0], _pk(place[1])) in records: ok[0] = False; return
+                    records[(place[0], _pk(place[1]))] = (place, kind, s.ev(stx.value.args[0], env2, mod, depth)); continue
+                if isinstance(stx, ast.For) and not stx.orelse:
+                    it2 = s.ev(stx.iter, env2, mod, depth)
+                    env3 = {'__parent__': env2}
+                    gens.append((it2, []))
+                    s.bind_iter(stx.target, it2, env3, mod, depth, len(gens) - 1)
+                    walk(stx.body, env3, len(gens) - 1)
+                    if stx is not stmts[-1]: ok[0] = False
+                    continue
+                ok[0] = False; return
+
+        if st.orelse: return False
+        env2 = {'__parent__': env}
+        gens.append((it, []))
+        s.bind_iter(st.target, it, env2, mod, depth, 0)
+        try:
+            walk(st.body, env2, 0)
+        except Exception:
+            return False
+        if not ok[0] or not records: return False
+        for (pk, _), (place, kind, elt) in records.items():
+            gs = [(g_it, [f for f in fs if f is not True]) for g_it, fs in gens]
+            if any(f is False for _, fs in gs for f in fs): val = {'list': [], 'set': Opq('set'), 'dict': {}}[kind]
+            else: val = Comp(elt, gs, kind)
+            if place[0] == 'name': s.rebind(place[1], val, env)
+            elif place[0] == 'store': s.stores[place[1]] = val
+            else: place[1][0].f[place[1][1]] = val
+        return True
+
+    # ---- array-building loops:  M = zeros(..); for ..: [if ..] M[i][j] (+)= v     ==  build(init, stores...)
+    def negate_value(s, v):
+        return s.binop(ast.Mult(), Poly.const(-1), v)
+
+    def _index_terms(s, t, env, mod, depth):
+        """(root Name node, [index terms]) of a (chained) subscript target  M[i][j] / M[i, j] / M[f(a, b)]"""
+        chain = []
+        while isinstance(t, ast.Subscript):
+            chain.append(t.slice); t = t.value
+        if not isinstance(t, ast.Name): return None, None
+        idx = []
+        for sl in reversed(chain):
+            items = sl.elts if isinstance(sl, ast.Tuple) else [sl]
+            for it_ in items:
+                if isinstance(it_, ast.Slice):
+                    idx.append(Opq('slice', *[s.ev(x, env, mod, depth) if x is not None else None for x in (it_.lower, it_.upper, it_.step)]))
+                else:
+                    v = s.ev(it_, env, mod, depth)
+                    if isinstance(v, (tuple, list)) and not isinstance(sl, ast.Tuple) and len(items) == 1: idx += list(v)
+                    else: idx.append(v)
+        return t, idx
+
+    def array_store(s, target, val, env, mod, depth, aug=False):
+        """record  M[idx] (+)= val  on an array-valued local as a store record of its build term; False when this is not an array store"""
+        root, idx = s._index_terms(target, env, mod, depth)
+        if root is None: return False
+        try: cur = s.lookup(root.id, env, mod)
+        except Exception: return False
+        if not _is_arraylike(cur): return False
+        b = s._build
+        pc = s._pc[b['pc0']:] if b is not None else []
+        guard = s.mkbool('and', [g if pol else s.negate(g) for g, pol in pc])
+        rec = Opq('st', tuple(b['gens']) if b is not None else (), guard, tuple(idx), val, bool(aug))
+        if b is not None and root.id not in b['inner']:
+            b['recs'].setdefault(root.id, []).append(rec)
+            return True
+        base, recs = (cur.k[1], list(cur.k[2])) if (isinstance(cur, Opq) and cur.k[0] == 'build') else (cur, [])
+        bt = Opq('build', base, tuple(recs + [rec]))
+        s.builds.append({'name': root.id, 'term': bt, 'mod': mod, 'line': getattr(target, 'lineno', 0)})
+        s.rebind(root.id, bt, env)
+        return True
+
+    def array_build(s, st, it, env, mod, depth, assigned, tnames):
+        """a loop whose only effect on outer names is storing into arrays: the arrays become build terms (bound variables canonical,
+        the local names of the loop do not appear)"""
+        outer = s._build
+        arrays, others = [], []
+        assigned = []
+        for n in ast.walk(st):
+            tgts = []
+            if isinstance(n, ast.Assign): tgts = n.targets
+            elif isinstance(n, (ast.AugAssign, ast.AnnAssign)): tgts = [n.target]
+            elif isinstance(n, ast.For): tgts = [n.target]
+            elif isinstance(n, ast.NamedExpr): tgts = [n.target]
+            elif isinstance(n, ast.Expr) and isinstance(n.value, ast.Call) and isinstance(n.value.func, ast.Attribute) and isinstance(n.value.func.value, ast.Name) \
+                    and n.value.func.attr in ('append', 'update', 'extend', 'add', 'remove', 'pop', 'sort', 'insert', 'clear'):
+                assigned.append(n.value.func.value.id)
+            for t in tgts:
+                for x in ([t] if not isinstance(t, (ast.Tuple, ast.List)) else ast.walk(t)):
+                    while isinstance(x, (ast.Subscript, ast.Attribute)): x = x.value
+                    if isinstance(x, ast.Name) and x.id not in assigned: assigned.append(x.id)
+        for nm in assigned:
+            if nm in tnames: continue
+            try: cur = s.lookup(nm, env, mod)
+            except Exception: cur = None
+            if cur is not None and _is_arraylike(cur): arrays.append(nm)
+            elif nm in _chain_names(env): others.append(nm)
+        if outer is None and (not arrays or others): return False
+        if any(isinstance(n, (ast.Return, ast.Break, ast.While)) for n in ast.walk(st)) or st.orelse: 
+            if outer is not None: outer['ok'] = False
+            return False
+        if outer is None:
+            b = s._build = {'gens': [], 'pc0': len(s._pc), 'recs': {}, 'ok': True, 'inner': set()}
+        else:
+            b = outer
+            if others: b['ok'] = False
+        level = len(b['gens'])
+        b['gens'].append(it)
+        env2 = {'__parent__': env}
+        snapshot = (dict(s.stores), list(s.mutations))
+        try:
+            s.bind_iter(st.target, it, env2, mod, depth, level)
+            s._undecided += 1
+            try: s.block(st.body, env2, mod, depth)
+            finally: s._undecided -= 1
+        except Exception:
+            b['ok'] = False
+        b['gens'].pop()
+        if outer is not None: return True
+        s._build = None
+        if not b['ok'] or not b['recs']:
+            s.stores, s.mutations = snapshot
+            return False
+        for nm, recs in b['recs'].items():
+            cur = s.lookup(nm, env, mod)
+            base, old = (cur.k[1], list(cur.k[2])) if (isinstance(cur, Opq) and cur.k[0] == 'build') else (cur, [])
+            bt = Opq('build', base, tuple(old + recs))
+            s.builds.append({'name': nm, 'term': bt, 'mod': mod, 'line': getattr(st, 'lineno', 0)})
+            s.rebind(nm, bt, env)
+        return True
 
     def reeval_loop(s, lp, target_value, depth=1):
         """evaluate the body of a summarised loop once more with the loop target bound to `target_value` (carried names stay atoms)"""
@@ -1392,6 +1646,8 @@ class Evaluator:
             if isinstance(base, Rec): base.f[t.attr] = val
             elif isinstance(base, Poly) and base.as_atom() is not None:
                 s.stores[(base.as_atom(), t.attr)] = val
+        elif isinstance(t, ast.Subscript) and s.array_store(t, val, env, mod, depth):
+            pass
         elif isinstance(t, ast.Subscript):
             base = s.ev(t.value, env, mod, depth)
             k = s.ev(t.slice, env, mod, depth) if not isinstance(t.slice, ast.Slice) else None
@@ -1402,6 +1658,13 @@ class Evaluator:
             elif isinstance(t.value, ast.Name):
                 s.mutations.append((t.value.id, '__setitem__', [k, val]))
                 s.rebind(t.value.id, Opq('mutated', 'setitem', base, k, val), env)
+
+
+ARRAY_HEADS = ('np.zeros', 'np.empty', 'np.ndarray', 'np.zeros_like', 'np.empty_like', 'np.full', 'np.eye', 'np.identity', 'build', 'hcat', 'vcat', 'np.diag', 'np.copy', 'np.array')
+
+
+def _is_arraylike(v):
+    return isinstance(v, Opq) and bool(v.k) and v.k[0] in ARRAY_HEADS
 
 
 def _pair_set(v):
@@ -1441,6 +1704,19 @@ def _exc_name(r):
     if e is None: return 're-raise'
     if isinstance(e, ast.Call): e = e.func
     return ast.unparse(e).split('.')[-1]
+
+
+def _pk(k):
+    return repr(k) if not isinstance(k, str) else k
+
+
+def _chain_names(env):
+    out = set()
+    e = env
+    while e is not None:
+        out |= {k for k in e if k != '__parent__'}
+        e = e.get('__parent__')
+    return out
 
 
 def _can_leave(stmts):
